@@ -104,13 +104,18 @@ prop('C15',
      )
 
 prop('C16',
-     explanation='Bounded model checking of the real PutToTargetPeersContext against a ledger for every event sequence.',
+     explanation='Bounded model checking of the real PutToTargetPeersContext against a ledger for every event sequence, and of the dial ledger of the '
+                 'real Kademlia event-loop handlers (on_query_action, open_substream_or_dial, on_dial_failure with the real query engine, routing '
+                 'table and transport service underneath): lookups whose peers must first be dialed and whose dials fail.',
      units=[
          dict(harness='c16_put_to_targets', covers=['c16.succeeded', 'c16.failed'], min_paths=1000, split=7,
               params={'quick': {'steps': 3}, 'thorough': {'steps': 4}}, conform={'quick': 60, 'thorough': 500}, nvals=30),
+         dict(harness='c16_dial_ledger', covers=['c16k.started', 'c16k.dial-failure', 'c16k.quiescent'], min_paths=20, split=3,
+              params={'quick': {'steps': 3}, 'thorough': {'steps': 5}}, conform={'quick': 60, 'thorough': 500}, nvals=16),
      ],
-     bounds={'peer universe': 3, 'targets': '<= 3 with duplicates', 'events': 'quick 3, thorough 4'},
-     outside=['Kademlia::on_query_action / dialing / executor time-outs (async event loop)'],
+     bounds={'peer universe': 3, 'targets': '<= 3 with duplicates', 'events': 'quick 3, thorough 4',
+             'dial ledger': '1..2 known unconnected peers, quick 3 / thorough 5 events of start FIND_NODE / dial failure, then all dials fail'},
+     outside=['the remaining fault placements of Kademlia::run (substream I/O, executor time-outs, disconnects midway, put/provider send phases through real substreams)'],
      )
 
 prop('C17',
